@@ -279,6 +279,9 @@ func registerVfModel(e *Engine) {
 			return ConstBV(64, 0)
 		}
 		site := fmt.Sprintf("pick#%d", st.siteCtr)
+		// the native run cannot be steered to the same pick: candidates on such
+		// paths that do not reproduce are inconclusive, not engine faults
+		st.approx = true
 		c := e.choose(st, site, int(n.c))
 		st.siteCtr++
 		return ConstBV(64, uint64(c))
